@@ -56,6 +56,7 @@ inductive Err
   | version        -- "Taskfiles versions should match"
   | dotenv         -- ErrIncludedTaskfilesCantHaveDotenvs
   | versionCheck   -- TaskfileVersionCheckError (107): no schema version
+  | decode         -- TaskfileDecodeError (102): a key used twice in `tasks:`, `includes:`, `vars:` or `env:`
   | internal       -- the model's own fuel / malformed input (never expected)
 deriving Repr, DecidableEq
 
